@@ -12,6 +12,7 @@ import (
 	"github.com/ohler55/ojg"
 	"github.com/ohler55/ojg/gen"
 	"github.com/ohler55/ojg/oj"
+	"github.com/ohler55/ojg/pretty"
 	"github.com/ohler55/ojg/sen"
 	vsync "github.com/ohler55/ojg/verifsync"
 
@@ -106,6 +107,9 @@ func (o *op07) String() string {
 		}
 		fmt.Fprintf(&b, " value=%s opts={Indent=%d Tab=%v Sort=%v OmitNil=%v OmitEmpty=%v UseTags=%v KeyExact=%v NestEmbed=%v Color=%v} limit=%d failCall=%d", v, o.Opt.Indent, o.Opt.Tab, o.Opt.Sort, o.Opt.OmitNil, o.Opt.OmitEmpty, o.Opt.UseTags, o.Opt.KeyExact, o.Opt.NestEmbed, o.Opt.Color, o.Limit, o.FailCall)
 	}
+	if strings.Contains(o.Subj, "pretty") {
+		fmt.Fprintf(&b, " width=%d maxDepth=%d align=%v sen=%v", []int{80, 40, 20, 10}[o.Mode%4], 1+o.Mode/4%4, o.Mode/16%2 == 1, o.Mode/32%2 == 1)
+	}
 	if o.PanicAt >= 0 {
 		fmt.Fprintf(&b, " callerPanicAt=%d", o.PanicAt)
 	}
@@ -121,12 +125,14 @@ type world07 struct {
 	senP *sen.Parser
 	senT *sen.Tokenizer
 	senW *sen.Writer
+	prW  *pretty.Writer
 }
 
 func newWorld07() *world07 {
 	return &world07{
 		ojP: &oj.Parser{}, ojV: &oj.Validator{}, ojT: &oj.Tokenizer{}, ojW: &oj.Writer{Options: ojg.DefaultOptions},
 		genP: &gen.Parser{}, senP: &sen.Parser{}, senT: &sen.Tokenizer{}, senW: &sen.Writer{Options: ojg.DefaultOptions},
+		prW: &pretty.Writer{Options: ojg.DefaultOptions, Width: 80, MaxDepth: 3},
 	}
 }
 
@@ -235,7 +241,7 @@ func drawOptions07(t *rapid.T) ojg.Options {
 }
 
 var parseSubjects = []string{"oj.Parser", "oj.Validator", "oj.Tokenizer", "gen.Parser", "sen.Parser", "sen.Tokenizer", "pkg.oj", "pkg.sen", "pkg.oj", "pkg.sen"}
-var writeSubjects = []string{"oj.Writer", "sen.Writer", "pkg.oj", "pkg.sen", "pkg.oj", "pkg.sen"}
+var writeSubjects = []string{"oj.Writer", "sen.Writer", "pkg.oj", "pkg.sen", "pkg.oj", "pkg.sen", "pretty.Writer", "pkg.pretty"}
 
 func drawOp07(t *rapid.T, faults bool) *op07 {
 	o := &op07{Conv: -1, PanicAt: -1, FailCall: -1}
@@ -251,6 +257,20 @@ func drawOp07(t *rapid.T, faults bool) *op07 {
 			o.Fn = []string{"SEN", "Write"}[sim.Intn(t, 2, "fn")]
 		case "pkg.oj":
 			o.Fn = []string{"JSON", "JSON(opts)", "Marshal", "Marshal(opts)", "Write", "Write(opts)", "JSON(int)", "Marshal(int)", "Write(int)"}[sim.Intn(t, 9, "fn")]
+		case "pretty.Writer":
+			o.Fn = []string{"Encode", "Marshal", "Write"}[sim.Intn(t, 3, "fn")]
+			o.Mode = sim.Intn(t, 64, "prettycfg")
+			if sim.Bool(t, "prettydeep") {
+				o.Value = gens.Deep(t, 3+sim.Intn(t, 40, "depth"))
+				o.ValDesc = fmt.Sprintf("%#v", o.Value)
+			}
+		case "pkg.pretty":
+			o.Fn = []string{"JSON", "SEN", "WriteJSON", "WriteSEN"}[sim.Intn(t, 4, "fn")]
+			o.Mode = sim.Intn(t, 64, "prettycfg")
+			if sim.Bool(t, "prettydeep") {
+				o.Value = gens.Deep(t, 3+sim.Intn(t, 40, "depth"))
+				o.ValDesc = fmt.Sprintf("%#v", o.Value)
+			}
 		default:
 			o.Fn = []string{"String", "String(opts)", "Write", "Write(opts)", "String(int)", "Write(int)", "Bytes"}[sim.Intn(t, 7, "fn")]
 		}
@@ -656,6 +676,44 @@ func (o *op07) exec(w *world07) (r *res07) {
 			err := w.senW.Write(sw, o.Value)
 			finishText(nil, err, sw)
 		}
+	case "pretty.Writer":
+		// (Mode carries the pretty configuration: width, max depth, align, SEN)
+		w.prW.Options = opt
+		w.prW.Width = []int{80, 40, 20, 10}[o.Mode%4]
+		w.prW.MaxDepth = 1 + o.Mode/4%4
+		w.prW.Align = o.Mode/16%2 == 1
+		w.prW.SEN = o.Mode/32%2 == 1
+		switch o.Fn {
+		case "Encode":
+			out := w.prW.Encode(o.Value)
+			finishText(append([]byte(nil), out...), nil, nil) // documented as the writer's buffer: snapshot by copy
+		case "Marshal":
+			out, err := w.prW.Marshal(o.Value)
+			finishText(append([]byte(nil), out...), err, nil)
+		default:
+			w.prW.WriteLimit = o.Limit
+			sw := sim.NewSimWriter(o.FailCall)
+			err := w.prW.Write(sw, o.Value)
+			finishText(nil, err, sw)
+		}
+	case "pkg.pretty":
+		parg := float64([]int{80, 40, 20, 10}[o.Mode%4]) + float64(1+o.Mode/4%4)/10
+		align := o.Mode/16%2 == 1
+		opt.WriteLimit = o.Limit
+		switch o.Fn {
+		case "JSON":
+			finishText([]byte(pretty.JSON(o.Value, parg, align, &opt)), nil, nil)
+		case "SEN":
+			finishText([]byte(pretty.SEN(o.Value, parg, align, &opt)), nil, nil)
+		case "WriteJSON":
+			sw := sim.NewSimWriter(o.FailCall)
+			err := pretty.WriteJSON(sw, o.Value, parg, align, &opt)
+			finishText(nil, err, sw)
+		default:
+			sw := sim.NewSimWriter(o.FailCall)
+			err := pretty.WriteSEN(sw, o.Value, parg, align, &opt)
+			finishText(nil, err, sw)
+		}
 	case "pkg.oj":
 		switch o.Fn {
 		case "JSON":
@@ -733,7 +791,7 @@ func (o *op07) orderIndependent() bool {
 	if o.IsParse {
 		return true
 	}
-	if strings.HasSuffix(o.Fn, "(opts)") || o.Subj == "oj.Writer" || o.Subj == "sen.Writer" {
+	if strings.HasSuffix(o.Fn, "(opts)") || o.Subj == "oj.Writer" || o.Subj == "sen.Writer" || o.Subj == "pretty.Writer" || o.Subj == "pkg.pretty" {
 		return true // Sort is set in every drawn option set
 	}
 	// (calls with an int indent or without arguments use unsorted default options)
